@@ -430,6 +430,10 @@ func Scenarios() []History {
 	// D9: a call of a registered module service (the synchronous call path)
 	ops = []Ev{
 		{Name: "Define", Signer: "o1", Svc: "msvc"},
+		{Name: "Define", Signer: "o1", Svc: "vsvcmod"},
+		// a service reserved by a module cannot be bound by a user (the module's own name is free)
+		{Name: "Bind", Signer: "o1", Svc: "msvc", Prov: "p1", Deposit: 40, DShape: "ok", Pr: pr(5), Qos: 1},
+		{Name: "Bind", Signer: "o1", Svc: "vsvcmod", Prov: "p1", Deposit: 40, DShape: "ok", Pr: pr(5), Qos: 1},
 		{Name: "Call", Signer: "c1", Svc: "msvc", Provs: []string{"p1"}, Cap: 10, Timeout: 2},
 		eb(1), eb(1), eb(1),
 	}
